@@ -293,8 +293,10 @@ def check_update_predict(got, exp, steps, desc):
     if [int(c) for c in got.columns] != cutoffs:
         return [D("update_predict_cutoff_labels", "%s: columns %s expected %s" % (desc, list(got.columns), cutoffs))]
     out = []
-    for c, p in exp:
-        col = got[c].reindex(p.index)  # per label; nan forecasts (window not yet full) stay nan
+    for j, (c, p) in enumerate(exp):
+        # per label; nan forecasts (window not yet full) stay nan (by position: a broken tree
+        # may repeat a cutoff label)
+        col = got.iloc[:, j].reindex(p.index)
         if not close(col, p):
             out.append(D("update_predict_differs", "%s cutoff %d: got %s expected %s" % (desc, c, col.tolist(), p.tolist())))
             break
